@@ -896,6 +896,13 @@ func globalKey(g *ssa.Global) string { return "G|" + g.Pkg.Pkg.Path() + "." + g.
 func (fx *FnExec) loadGlobal(st *State, g *ssa.Global) Val {
 	t := g.Type().(*types.Pointer).Elem()
 	if isObjT(t) {
+		if fx.eng.globalNeverWritten(g) {
+			if _, isArr := under(t).(*types.Array); isArr && singleSort(t) != nil {
+				// a package-level array that no instruction of the program ever stores to (not even its
+				// package initialiser) or takes the address of: it holds its zero value forever
+				return fx.zeroVal(t)
+			}
+		}
 		return fx.loadObj(st, t, fx.c.Const(globalKey(g), RefSort))
 	}
 	var ls []*Term
